@@ -31,6 +31,11 @@ type amr struct {
 	pre       map[*ssa.BasicBlock]bool
 	emptyRets map[*ssa.Return]bool
 
+	// adopted: module functions the helper calls or spawns statically while handing them one of
+	// its protocol objects (a channel, mapFunc/reduceFunc, the wait group): an extracted worker
+	// or reducer. Their bodies are checked as part of the family (a.all).
+	adopted map[*ssa.Function]bool
+
 	note string // appended to the reasons of violations (context of a re-used sub-check)
 }
 
@@ -160,6 +165,53 @@ func (a *amr) cell(addr ssa.Value) ssa.Value {
 	return addr
 }
 
+// adopt extends the family by the module functions that receive a protocol object from it.
+func (a *amr) adopt() {
+	a.adopted = map[*ssa.Function]bool{}
+	for round := 0; round < 3; round++ {
+		grew := false
+		for _, f := range append([]*ssa.Function{}, a.all...) {
+			for _, ins := range allInstrs(f) {
+				ci, ok := ins.(ssa.CallInstruction)
+				if !ok {
+					continue
+				}
+				sc := ci.Common().StaticCallee()
+				if sc == nil || !inModule(sc) {
+					continue
+				}
+				callee := a.r.P.declared(sc)
+				if callee == nil || callee.Blocks == nil || callee.Parent() != nil || callee == a.fn || a.adopted[callee] {
+					continue
+				}
+				hands := false
+				for _, arg := range ci.Common().Args {
+					switch t := arg.Type().Underlying().(type) {
+					case *types.Chan:
+						hands = true
+					case *types.Signature:
+						if a.isParam(arg, a.mapP) || a.isParam(arg, a.redP) {
+							hands = true
+						}
+					case *types.Pointer:
+						if namedOf(t.Elem()) == "sync.WaitGroup" {
+							hands = true
+						}
+					}
+				}
+				if hands {
+					a.adopted[callee] = true
+					a.all = append(a.all, withClosures(callee)...)
+					grew = true
+				}
+			}
+		}
+		if !grew {
+			break
+		}
+	}
+}
+
 // deferredOnly: lit is a literal of the helper that is entered only through `defer` statements
 // of the helper itself (or of literals that are themselves deferred-only): its body runs on the
 // caller's goroutine when the helper returns.
@@ -215,7 +267,7 @@ func (a *amr) entrySites(lit *ssa.Function) []ssa.CallInstruction {
 				continue
 			}
 			for _, rv := range a.calleeLits(ci.Common().Value) {
-				if rv == lit {
+				if rv == lit || (a.adopted[lit] && a.r.P.declared(rv) == lit) {
 					out = append(out, ci)
 				}
 			}
@@ -334,6 +386,7 @@ func ruleAMR(r *Run) {
 		return
 	}
 	a.payload, a.accP, a.mapP, a.redP = fn.Params[0], fn.Params[1], fn.Params[2], fn.Params[3]
+	a.adopt()
 	for _, f := range a.all {
 		r.FuncsSeen[fnName(f)] = true
 	}
@@ -394,6 +447,9 @@ func ruleAMR(r *Run) {
 			callee := r.P.declared(sc)
 			if callee == nil || callee.Blocks == nil || topFn(callee) == fn {
 				continue
+			}
+			if a.adopted[callee] {
+				continue // its body is checked under the obligations like a literal of the helper
 			}
 			nA11++
 			if why := r.blockingReason(callee, map[*ssa.Function]bool{}); why != "" {
@@ -460,6 +516,9 @@ func ruleAMR(r *Run) {
 				}
 				// the function parameters must not escape to other callees
 				for _, arg := range c.Args {
+					if sc := c.StaticCallee(); sc != nil && a.adopted[r.P.declared(sc)] {
+						break // handed to an adopted function: its calls are counted below
+					}
 					if _, isSig := arg.Type().Underlying().(*types.Signature); isSig {
 						if a.isParam(arg, a.mapP) || a.isParam(arg, a.redP) {
 							a.bad("A10", "func-param-escapes", ins, "mapFunc/reduceFunc is passed on to another callee; the number of times it runs is no longer decided by this function")
